@@ -388,9 +388,11 @@ func (bkt *Bucket) checkAndSet(ki *KeyInfo, v *Payload) error {
 
 	if payload != nil {
 		oldv = payload.Ver
-		if oldv > 0 && v.ValueHash == payload.ValueHash {
+		// the same-value short cut is for sets only: a delete request carries value hash 0,
+		// which is also the hash of some real values
+		if oldv > 0 && v.Ver >= 0 && v.ValueHash == payload.ValueHash {
 			if Conf.CheckVHash {
-				if v.Ver != 0 {
+				if v.Ver != 0 && abs(v.Ver) > abs(oldv) { // an explicit revision only moves the version forward
 					// sync script would be here, e.g. set_raw(k, v, rev=xxx)
 					bkt.htree.set(ki, &v.Meta, pos)
 				}
